@@ -487,3 +487,13 @@ Proof.
   intros keys avail i u b u' b' [_ [_ [HU HB]]] [_ [_ [HU' HB']]] f.
   rewrite HU, HU', HB, HB'. tauto.
 Qed.
+
+Theorem accepted_equals_model : forall keys avail i u b u' b',
+    chk_frames keys avail i (Some (u, b)) = true ->
+    matching_frames keys avail i = Some (u', b') ->
+    forall f, (In f u <-> In f u') /\ (In f b <-> In f b').
+Proof.
+  intros keys avail i u b u' b' H E.
+  apply (FramesOK_unique keys avail i u b u' b' (chk_frames_sound _ _ _ _ H)).
+  rewrite <- E. apply model_FramesOK.
+Qed.
